@@ -65,17 +65,25 @@ def mk_package(it, hint='pkg', may_raise=False, res_may_raise=False):
 class Expect:
     """result of running a spec step before the real code: outputs / new state, or the exception class raised"""
 
-    def __init__(self, value=None, exc=None):
+    def __init__(self, value=None, exc=None, events=()):
         self.value = value
         self.exc = exc
+        self.events = list(events)
 
 
 def run_spec(it, fn, args):
+    """run a spec function as ghost code: its trace events are taken out of the path and returned"""
     from pyvc.symex import PyExc
+    n0 = len(it.path.events)
     try:
-        return Expect(value=it.call(fn, list(args)))
+        v = it.call(fn, list(args))
+        evs = it.path.events[n0:]
+        del it.path.events[n0:]
+        return Expect(value=v, events=evs)
     except PyExc as e:
-        return Expect(exc=e.exc)
+        evs = it.path.events[n0:]
+        del it.path.events[n0:]
+        return Expect(exc=e.exc, events=evs)
 
 
 def ghost_row(snap, alias=None):
